@@ -271,9 +271,9 @@ def expected(d, cls, acc_name, ncores):
     if ew and sub in ("ADD", "SUB", "MUL") and act is not None and act["op_type"] in ("TANH", "SIGMOID"):
         s_out = 1 / 0x3000           # the table's input scale replaces the OFM scale
     if ew and sub in ("ADD", "SUB") and not explicit and None not in (s_in, s_in2, s_out):
-        # operand scaling mode is chosen by the scaling code (C09): any documented ifm_scale_mode
+        # the scale mode is judged together with the operand order and the scale registers (addsub_denotes)
         w.items.append(("0:SET_IFM_PRECISION", ("mask", 0xFCFF, prec), "IFM precision (type, layout)", False))
-        w.rng("0:SET_IFM_PRECISION", 0, 0x2FF, "IFM precision scale mode")
+        w.items.append(("custom", addsub_denotes(s_in, s_in2, s_out, bits), "operand scaling (order, scale mode, OPA/OPB/OFM scale)", False))
     else:
         w.eq("0:SET_IFM_PRECISION", prec, "IFM precision (type, layout, scale mode)")
     w.eq("0:SET_IFM_UPSCALE", RESAMPLE[d["ifm_upscale"]], "IFM upscale mode")
@@ -373,9 +373,16 @@ def expected(d, cls, acc_name, ncores):
                 w.eq("1:SET_OPB_SCALE", 1, "operand B scale (none)")
         elif sub in ("MIN", "MAX", "CLZ", "SHR", "SHL"):
             w.eq("1:SET_OFM_SCALE", 1, "OFM scale of an unscaled elementwise operation")
+        elif sub == "MUL":
+            from ethosu.vela import scaling      # the reference multipliers (C09)
+            m_, sh_ = scaling.elementwise_mul_scale(s_in, s_in2, s_out)
+            if 0 <= sh_ < 64:
+                w.eq("1:SET_OFM_SCALE", int(m_) + (int(sh_) << 32), "OFM scale/shift of the product (input scales / output scale)")
+            else:
+                w.rng("1:SET_OFM_SCALE", 0, (64 << 32) - 1, "derived OFM scale (32-bit scale, shift below 64)")
         else:
             w.rng("1:SET_OFM_SCALE", 0, (64 << 32) - 1, "derived OFM scale (32-bit scale, shift below 64)")
-            if sub in ("ADD", "SUB"):
+            if sub in ("ADD", "SUB"):      # presence and range; the values are judged by addsub_denotes
                 w.rng("1:SET_OPA_SCALE", 0, (64 << 32) - 1, "derived operand A scale")
                 w.rng("1:SET_OPB_SCALE", 0, (1 << 32) - 1, "derived operand B scale")
     elif cls == "NpuPoolingOperation" and glob == 1:
@@ -412,6 +419,49 @@ def expected(d, cls, acc_name, ncores):
     return code, par, w
 
 
+def addsub_denotes(s_ifm, s_ifm2, s_out, bits):
+    """ADD/SUB of two quantised feature maps without explicit rescale.  What the registers mean (register
+    documentation): IFM2_BROADCAST bit 6 = operand order (0: operand A = IFM, B = IFM2; 1: A = IFM2, B = IFM);
+    IFM_PRECISION[9:8] = scale mode (0: A and B scaled by the 16-bit OPA_SCALE / OPB_SCALE; 1: operand A rescaled
+    by the 32-bit OPA_SCALE, B only shifted; 2: operand B rescaled, A only shifted).  The decoded registers denote
+    the input operation when the rescaled feature map is the input with the SMALLER scale and the multipliers are
+    the reference's (scaling.py, C09) for this operation's quantisations -- whatever the operand order.
+    Returns a function snapshot -> None | (expected, decoded)."""
+    def check(snap):
+        from ethosu.vela import scaling
+        R = regs()
+        order = (snap.get(R["0:SET_IFM2_BROADCAST"], 0) >> 6) & 1
+        mode = (snap.get(R["0:SET_IFM_PRECISION"], 0) >> 8) & 3
+        opa, opb, ofm = snap.get(R["1:SET_OPA_SCALE"]), snap.get(R["1:SET_OPB_SCALE"]), snap.get(R["1:SET_OFM_SCALE"])
+        got = {"operand_order": order, "scale_mode": mode, "OPA_SCALE": opa, "OPB_SCALE": opb, "OFM_SCALE": ofm}
+        if None in (opa, opb, ofm):
+            return ("OPA/OPB/OFM scale written", got)
+        s_a, s_b = (s_ifm2, s_ifm) if order else (s_ifm, s_ifm2)
+        if mode in (1, 2):
+            sel, other = (s_a, s_b) if mode == 1 else (s_b, s_a)
+            if sel > other:
+                return ("scale mode %d with operand order %d rescales the input with scale %r; the input with the smaller "
+                        "scale %r has to be rescaled (scale mode %d)" % (mode, order, sel, other, 3 - mode), got)
+            in_scale, in_shift, out_scale, out_shift, _ = scaling.advanced_elementwise_add_sub_scale(s_ifm, s_ifm2, s_out, bits)
+            if not (0 <= in_shift < 64 and 0 <= out_shift < 64):
+                return None
+            want = {"OPA_SCALE": int(in_scale) + (int(in_shift) << 32), "OFM_SCALE": int(out_scale) + (int(out_shift) << 32)}
+            if opa != want["OPA_SCALE"] or ofm != want["OFM_SCALE"]:
+                return (want, got)
+            return None
+        if mode == 0:
+            ra, rb, out_scale, out_shift = scaling.simplified_elementwise_add_sub_scale(s_a, s_b, s_out)
+            if not (1 <= out_shift < 64):
+                return None
+            full = (int(ra), int(rb), int(out_scale) + (int(out_shift) << 32))
+            half = (int(ra // 2), int(rb // 2), int(out_scale) + ((int(out_shift) - 1) << 32))    # same products, one bit less
+            if (opa, opb, ofm) not in (full, half):
+                return ({"(OPA, OPB, OFM) one of": [full, half]}, got)
+            return None
+        return ("a documented scale mode (0, 1, 2)", got)
+    return check
+
+
 def judge(d, cls, acc_name, ncores, ev):
     """compare one decoded operation event with the input operation: list of (field, expected, decoded)"""
     code, par, w = expected(d, cls, acc_name, ncores)
@@ -423,6 +473,11 @@ def judge(d, cls, acc_name, ncores, ev):
     snap = ev[3]
     R = regs()
     for reg, val, what, signed in w.items:
+        if reg == "custom":
+            r_ = val(snap)
+            if r_ is not None:
+                bad.append((what, r_[0], r_[1]))
+            continue
         key = R[reg]
         if key not in snap:
             bad.append((what + " [register never written]", val, None))
@@ -780,6 +835,45 @@ class Gen:
         n.block_config = bc
         return n
 
+    def ew_scale_grid(self):
+        """binary ADD / SUB / MUL of quantised feature maps without explicit rescale: operand order x data type x
+        equal / differing input scales x output scales (the operand-scaling clause of the property), in lists of
+        up to 12 so that IFM_PRECISION / OPA_SCALE / OFM_SCALE are also elided against each other"""
+        r, api = self.rng, self.api
+        E = api.NpuElementWiseOp
+        pairs = [(0.25, 0.5), (0.5, 0.25), (0.0123, 0.0771), (0.0771, 0.0123), (0.5, 0.5), (0.0235, 0.0235), (0.007843138, 0.20392157)]
+        ops = []
+        for sub in (E.ADD, E.SUB, E.MUL):
+            for rev in (False, True):
+                for dt in (api.NpuDataType.INT8, api.NpuDataType.UINT8, api.NpuDataType.INT16):
+                    for s1, s2 in pairs:
+                        op = api.NpuElementWiseOperation(sub)
+                        h, w, c = self.pick_dim(), self.pick_dim(), self.pick_dim(32)
+                        bh = r.random() < 0.15
+                        op.ifm = self.fm(api.NpuShape3D(h, w, c), dt, allow_none_quant=False)
+                        op.ifm2 = self.fm(api.NpuShape3D(1 if bh else h, w, c), dt, allow_none_quant=False)
+                        op.ofm = self.fm(api.NpuShape3D(h, w, c), dt, allow_none_quant=False)
+                        zp = 0 if dt == api.NpuDataType.INT16 else r.choice([0, 3, 127])
+                        op.ifm.quantization = api.NpuQuantization(s1, zp)
+                        op.ifm2.quantization = api.NpuQuantization(s2, 0)
+                        op.ofm.quantization = api.NpuQuantization(r.choice([0.6, 0.25, 0.5, 0.0784, 1.0 / 256]), zp)
+                        op.reversed_operands = rev
+                        op.rounding_mode = r.choice([api.NpuRoundingMode.TFL, api.NpuRoundingMode.NATURAL])
+                        if r.random() < 0.15:
+                            op.activation = api.NpuActivation(r.choice([api.NpuActivationOp.TANH, api.NpuActivationOp.SIGMOID]))
+                        bc = self.block_config(op)
+                        if bc is None:
+                            continue
+                        op.block_config = bc
+                        ops.append(op)
+        r.shuffle(ops)
+        lists, i = [], 0
+        while i < len(ops):
+            n = r.choice([1, 2, 5, 12])
+            lists.append(ops[i:i + n])
+            i += n
+        return lists
+
     def op_list(self):
         r = self.rng
         n = r.choice([1, 1, 2, 2, 3, 4, 5, 6, 8, 10, 12])
@@ -1039,6 +1133,18 @@ def helper_cases(rng, n):
         e2.cmd1_with_address(g.cmd1.NPU_SET_IFM_BASE0, ad)
         wds = e2.to_list()
         out.append(("misc_fields", [idx, int(i32), int(rv), int(scal), int(bh), int(bw), int(bc), ad], [a1, b1, int(wds[1]), int(wds[0]) >> 16]))
+        # operand order / scale mode of ADD/SUB with differing input scales (always the advanced branch)
+        so = api.NpuElementWiseOperation(rng.choice([api.NpuElementWiseOp.ADD, api.NpuElementWiseOp.SUB]))
+        sdt = rng.choice([api.NpuDataType.INT8, api.NpuDataType.UINT8, api.NpuDataType.INT16])
+        s1, s2 = rng.sample([0.25, 0.5, 0.0123, 0.0771, 0.007843138, 0.20392157, 1.5], 2)
+        so.ifm, so.ifm2, so.ofm = api.NpuFeatureMap(), api.NpuFeatureMap(), api.NpuFeatureMap()
+        for f_, sc_ in ((so.ifm, s1), (so.ifm2, s2), (so.ofm, rng.choice([0.6, 0.25, 0.0784]))):
+            f_.data_type = sdt
+            f_.quantization = api.NpuQuantization(sc_, 0)
+        so.reversed_operands = rng.random() < 0.5
+        m_ = int(g.generate_scaling_for_elementwise(g.CommandStreamEmitter(), so))
+        sel_ifm = (m_ == 2) if so.reversed_operands else (m_ == 1)      # register documentation, see addsub_denotes
+        out.append(("scale_mode", [int(so.reversed_operands), int(s1 < s2)], [m_, int(sel_ifm)]))
     return out
 
 
@@ -1341,11 +1447,19 @@ def run(tier):
     n_lists = 220 if not big else 6000
     rec = Recorder()
     runs = []
+    todo = []
+    for acc in (["ethos-u55-128", "ethos-u65-512"] if not big else ACCS):
+        g = Gen(rng, acc)
+        todo += [(g, ops) for ops in g.ew_scale_grid()]
+    cov["operand_scaling_grid_lists"] = len(todo)
+    for i in range(n_lists):
+        g = Gen(rng, ACCS[i % len(ACCS)])
+        todo.append((g, None))
     try:
-        for i in range(n_lists):
-            acc = ACCS[i % len(ACCS)]
-            g = Gen(rng, acc)
-            ops = g.op_list()
+        for g, ops in todo:
+            acc = g.acc_name
+            if ops is None:
+                ops = g.op_list()
             so = ser_ops(ops)
             try:
                 words, log = rec.run(ops, g.acc)
